@@ -61,6 +61,11 @@ def _history(draw, tier):
             d.insert(draw(st.integers(0, len(d))), d[0])       # the same object listed twice
         doms.append(d)
     vars_ = [{"dom": v, "decl": draw(st.sampled_from(["let", "from"])), "type": "Ent"} for v in range(nvars)]
+    for vd in vars_:
+        if chance(draw, 1, 6):
+            # predicate-form declaration with a field constraint that some member of the domain satisfies
+            f = draw(st.sampled_from(["a", "b", "s"]))
+            vd.update(decl="from", kw=[[f, recs[draw(st.sampled_from(doms[vd["dom"]]))][f]]])
     share_cmp = chance(draw, 1, 4)
     pool = []
     for qi in range(draw(st.integers(2, 4))):
@@ -189,6 +194,8 @@ def check(case) -> Outcome:
         classes.append("nested_subquery")
     if has_dup:
         classes.append("repeated_object_in_domain")
+    if any(v.get("kw") for v in case["vars"]):
+        classes.append("predicate_form_variable")
     feats = list(classes)
     try:
         V, conts = declare_vars(case, objs)
